@@ -6,7 +6,7 @@ from typing import Any
 from vmc.checks.common import replay_program, run_programs
 from vmc.engine import Action, gate, make_step, make_workflow, stream_repr, task_outcome
 from vmc.events import A, Done, MyStop, Prog, Work
-from vmc.progs import ENGINE_ASSUMPTIONS, Oracle, Spec, to_programs, wf_chain, wf_early_stop, wf_fan
+from vmc.progs import ENGINE_ASSUMPTIONS, Oracle, Spec, to_programs, wf_chain, wf_collect, wf_early_stop, wf_fan
 from workflows import catch_error
 from workflows.errors import WorkflowCancelledByUser, WorkflowTimeoutError
 from workflows.events import (
@@ -262,6 +262,8 @@ def specs(tier: str) -> list[Spec]:
         Spec("normal_stop", {"cause": "normal_stop"}, lambda: wf_chain(2)),
         Spec("custom_stop", {"cause": "custom_stop"}, wf_custom_stop),
         Spec("stop_race", {"cause": "stop_race"}, wf_stop_race, max_dev=(4 if tier == "quick" else None)),
+        # overlapping collect_events invocations (stale-snapshot re-runs) on the way to the StopEvent
+        Spec("collect_race", {"cause": "normal_stop"}, lambda: wf_collect(2), max_dev=(4 if tier == "quick" else None)),
         Spec("two_stops", {"cause": "two_stops"}, wf_two_stops, pair=True),
         Spec("stop_vs_cleanup_writer", {"cause": "stop_race"}, wf_stop_cleanup_writer, pair=True),
         Spec("fail_vs_cleanup_writer", {"cause": "raise_no_retry", "writers": True}, lambda: wf_stop_cleanup_writer("fail"), pair=True),
